@@ -66,7 +66,15 @@ type session struct {
 }
 
 func openSession(trans string, v int, opts ...client.DialOption) (*session, error) {
+	return openSessionPrep(trans, v, nil, opts...)
+}
+
+// openSessionPrep lets the scenario register handlers before dialing (the documented order).
+func openSessionPrep(trans string, v int, prep func(*testClient), opts ...client.DialOption) (*session, error) {
 	s := &session{tc: newTestClient(), v: v, trans: trans}
+	if prep != nil {
+		prep(s.tc)
+	}
 	opts = append([]client.DialOption{client.Keepalive(time.Hour), client.KeepaliveTimeout(2 * time.Hour)}, opts...)
 	errc := make(chan error, 1)
 	if trans == "tcp" {
